@@ -1376,33 +1376,36 @@ def check_string_oracle(ctx, n: int):
 
 # ------------------------------------------------------------------ check module interface
 LEVEL_TEXT = ("Machine-checked round-trip theorems at character level for all three styles, each of the form parse(render(written)) = written "
-              "for every parent and every written structure satisfying a decidable well-formedness predicate. Google: every indentation >= 1, "
-              "every list of free-text, item (Parameters, Other Parameters, Raises, Warns, Attributes, Functions, Classes, Modules, Returns, Yields, "
-              "Receives; all aliases of the keyword table regenerated from google.py; optional section titles; blank lines between items) and "
-              "admonition sections: kinds in written order, titles, names, annotations written or taken from the signature, defaults, multi-line / "
-              "blank-line / deeper-indented descriptions; no hypothesis besides well-formedness. Numpy: optional leading text and every list of item "
-              "sections (parameters documented together, `, optional`, three default spellings, the four name/type spellings of Returns items, "
-              "dash-only lines inside descriptions, blank lines between items), admonitions and Deprecated sections, modulo the decidable known gap "
+              "for every parent and every written structure satisfying a decidable well-formedness predicate. Google, under EVERY value of the "
+              "four item options (returns/receives_multiple_items, returns/receives_named_value) and of trim_doctest_flags, every indentation >= 1: "
+              "free text with fenced code blocks, item sections (Parameters, Other Parameters, Raises, Warns, Attributes, Functions, Classes, Modules, "
+              "Returns, Yields, Receives written the way the options in force prescribe; all aliases of the keyword table regenerated from google.py; "
+              "optional section titles; blank lines between items), Examples (prose / console chunks, doctest flags) and admonitions: kinds in "
+              "written order, titles, names, annotations written or taken from the signature, defaults, multi-line / blank-line / deeper-indented "
+              "descriptions; no hypothesis besides well-formedness. Numpy (default options): optional leading text with fenced code, item sections "
+              "(parameters documented together, `, optional`, three default spellings, the four name/type spellings of Returns items, dash-only "
+              "lines inside descriptions, blank lines between items), Examples, admonitions and Deprecated sections, modulo the decidable known gap "
               "C13-F6. Sphinx: the full field list (:param: with optional inline type, :type:, :var:, :vartype:, :raises:, :returns:, :rtype: under "
               "every alias, any order, blank lines inside and after descriptions, one name as parameter and attribute), result grouped in Sphinx's "
               "fixed order with the documented annotation precedence, modulo the decidable known gap C13-F8. Corollaries: no-leak (section i parses "
-              "as it does alone; Google, Numpy), signature fallback (per name for Numpy's combined parameters). Findings F5, F6, F8 are refuted by "
-              "witness inside the models; the witnesses of the repaired findings F1, F2 are proved to round-trip. The models (the three parsers' main "
-              "loops, block readers, every item reader, all regexes hand-compiled incl. the default-value regex, textwrap.dedent, Examples readers, "
-              "option modes) are tied to the code by differential runs on rendered and perturbed docstrings of each style, their string functions to "
-              "CPython str/re/textwrap, their renderers, expectations and gap predicates to the harness's, and every generated theorem instance is "
-              "replayed on the implementation.")
+              "as it does alone; Google, Numpy), signature fallback (Google: per tuple element by the NUMBER of documented items under any option "
+              "values; Numpy: per name for combined parameters). Findings F5, F6, F8 are refuted by witness inside the models; the witnesses of the "
+              "repaired findings F1, F2 are proved to round-trip. The models (the three parsers' main loops, block readers, every item reader, all "
+              "regexes hand-compiled incl. the default-value regex, textwrap.dedent, Examples readers, option modes) are tied to the code by "
+              "differential runs on rendered and perturbed docstrings of each style, their string functions to CPython str/re/textwrap, their "
+              "renderers, expectations and gap predicates to the harness's, and every generated theorem instance (Google ~1250, Numpy ~730, Sphinx "
+              "~580 per quick run) is replayed on the implementation.")
 LEVEL_NOTE = ("Trusted: Coq kernel, extraction, this harness (generators, renderers = documented syntax, expectation, canonicalisation). Annotation "
               "strings are compared as str(parse_docstring_annotation(x)) - expression parsing/printing is C03's subject; generated annotations are in "
-              "canonical form (a Numpy choices item `{a, b}` is compared modulo that function). The theorems cover default options and printable "
-              "ASCII; not in any theorem but in the models and the differential checks: Examples sections, fenced code in free text, Google's "
-              "returns_multiple_items=False / *_named_value=False modes, `(type, optional)`, Numpy choices items, trim_doctest_flags, Numpy "
-              "ignore_init_summary; checked directly only: Google ignore_init_summary and returns_type_in_property_summary, non-ASCII text and "
-              "characters at which str.splitlines cuts (the model covers the ASCII ones). The Numpy written structure has no spelling for the bare "
-              "`name` form of a Returns item (finding C13-F5: read as the type). Known findings C13-F5, F6, F8 carry exact defect-adjusted "
-              "expectations in the direct check (F6, F8 are also the gap predicates of the theorems and are compared with the harness classifiers on "
-              "every case), so any other deviation still alarms. Findings C13-F1, F2, F3, F4, F7, F9, F10 are repaired in the source; their witnesses "
-              "are must-pass corpus cases (corpus/C13).")
+              "canonical form (a Numpy choices item `{a, b}` is compared modulo that function). The theorems cover printable ASCII; the Numpy and "
+              "Sphinx theorems default options (Sphinx has none that changes the result). Not in any theorem but in the models and the "
+              "differential checks: Google `(type, optional)` and the `(type): ...` spelling of the unnamed mode, Numpy choices items, Numpy "
+              "trim_doctest_flags=False and ignore_init_summary; checked directly only: Google ignore_init_summary and "
+              "returns_type_in_property_summary, non-ASCII text and characters at which str.splitlines cuts (the model covers the ASCII ones). The "
+              "Numpy written structure has no spelling for the bare `name` form of a Returns item (finding C13-F5: read as the type). Known findings "
+              "C13-F5, F6, F8 carry exact defect-adjusted expectations in the direct check (F6, F8 are also the gap predicates of the theorems and "
+              "are compared with the harness classifiers on every case), so any other deviation still alarms. Findings C13-F1, F2, F3, F4, F7, F9, "
+              "F10 are repaired in the source; their witnesses are must-pass corpus cases (corpus/C13).")
 MODEL = ("Model.C13_run", "run_C13")
 COQ_TARGETS = ["Proofs/C13_strings.vo", "Proofs/C13_google.vo", "Proofs/C13_sphinx.vo", "Proofs/C13_numpy.vo", "Proofs/C13_sphinx_full.vo"]
 MODEL_TARGETS = ["Model/C13_run.vo"]        # not a dependency of the proofs: rebuilt when Gen/C13_tables.v changes
@@ -1719,7 +1722,7 @@ def explore_numpy(ctx, n: int, exotic: float = 0.0, with_model: bool = True):
             ctx.tie_failure("correspondence", "parse_numpy(model) vs Docstring.parse('numpy')", {"model": mo, "impl": impl},
                             _case_json("numpy", o, d, t))
     # (C) render / expectation / theorem instances
-    ws = [(r, nsecs_sexp(r[1])) for r in mc if not r[0].get("ignore_init_summary")]
+    ws = [(r, nsecs_sexp(r[1])) for r in mc if not r[0].get("ignore_init_summary") and opt(r[0], "trim_doctest_flags")]
     ws = [(r, w) for r, w in ws if w is not None]
     m_spec = ctx.model([["nspec", ctx_sexp(r[1]["parent"]), w] for r, w in ws])
     m_parse = ctx.model([["nparse", [True, False], ctx_sexp(r[1]["parent"]), r[2]] for r, w in ws])
@@ -1743,7 +1746,7 @@ def explore_numpy(ctx, n: int, exotic: float = 0.0, with_model: bool = True):
 
 def nsecs_sexp(doc: dict):
     """The written Numpy structure as a term of the Coq type [list nsec]; None when it uses what the Coq spec does not cover
-    (Examples, choices, the bare `name` form of Returns items (finding C13-F5), free text after the first section)."""
+    (choices, the bare `name` form of Returns items (finding C13-F5), free text after the first section)."""
     out = []
     for si, sec in enumerate(doc["sections"]):
         k = sec["k"]
@@ -1755,6 +1758,8 @@ def nsecs_sexp(doc: dict):
             out.append(["adm", sec["header"], sec["lines"]])
         elif k == "deprecated":
             out.append(["deprecated", sec["header"], sec["version"], sec["lines"]])
+        elif k == "examples":
+            out.append(["examples", True, sec["header"], [[ck == "examples", ls] for ck, ls in sec["chunks"]]])
         elif k in ITEM_KINDS:
             items = []
             for it in sec["items"]:
